@@ -331,6 +331,7 @@ pub fn run_history(plan: &Plan) -> RunResult {
     let out2 = out.clone();
     let p2 = plan.clone();
     let rep = sim::run_sim(plan.seed, &plan.sched, plan.max_steps, false, move || history_body(&p2, out2));
+    dump_events(&rep);
     let ho = out.lock().unwrap().take();
     let mut violations = Vec::new();
     let mut stats = stats_from_report(&rep);
@@ -443,5 +444,14 @@ pub fn push_panic_violations(panics: &[rt::core::PanicRec], violations: &mut Vec
 pub fn drop_echoes(violations: &mut Vec<Violation>) {
     if violations.iter().any(|v| v.class.starts_with("panic:") || v.class.starts_with("hang_after_panic:")) {
         violations.retain(|v| !v.class.starts_with("read_failed:Canceled"));
+    }
+}
+
+pub fn dump_events(rep: &sim::SimReport) {
+    if std::env::var_os("LSIM_DUMP_EVENTS").is_some() {
+        for e in &rep.ctx.events {
+            eprintln!("  {:6} t{:<3} {:>14} {:12} {}", e.seq, e.task, e.t_ns, e.kind, rt::core::truncate(&e.detail, 160));
+        }
+        eprintln!("  roles: {:?}", rep.ctx.roles);
     }
 }
